@@ -1,6 +1,7 @@
 package main
 
 import (
+	"path/filepath"
 	"fmt"
 	"os"
 	"strings"
@@ -296,6 +297,9 @@ func replayOnce(c *Ctx, rf *ReplayFile) (bool, string, error) {
 				}
 			}
 			v = checkFormatF(ref, o, sh)
+			if (rf.CLI.Sched.DenyCreate || len(filepath.Base(sh.real)) >= 255) && ref.FormatOK && gaveUp(o, sh, in) {
+				v = nil // a faulted run that gave up is not judged
+			}
 		}
 		if v != nil {
 			return true, v.msg, nil
